@@ -65,7 +65,7 @@ CLAIMED = {
         note="Trusted: Coq kernel + vm_compute; the hand-written model (validated by correspondence, not derived); extraction (ExtrOcamlBasic) and the OCaml/Go harness glue; the generated Unicode/token tables. No axioms."),
     "C13": dict(
         technique="Coq proof of a position invariant over the lexer model against an independent line/column spec + generated message inventory; correspondence and message re-location",
-        text="C13 (a) offsets strictly increase and lie in [1,len], (b) line/column equal those of the designated rune per an independent spec, (c) the position designates the first character of the token for every kind but STRING, (e) two non-EOF tokens of one result never share a Position (offsets strictly increase by index) — all for every byte list over the lexer model; (d) every 'line %d, column %d' message of package parser takes both numbers from the Pos of one token register and the registers are written only in nextToken (generated inventory, computed obligation). Tied by the lexer correspondence and by re-locating every message of Parse on mutated statements in the input's token list.",
+        text="C13 (a) offsets strictly increase and lie in [1,len], (b) line/column equal those of the designated rune per an independent spec, (c) the position designates the first character of the token for every kind but STRING, (e) two non-EOF tokens of one result never share a Position (offsets strictly increase by index), (f) a printed (line, column) pair designates at most one rune of the input and at most one non-EOF token — all for every byte list over the lexer model; (d) every 'line %d, column %d' message of package parser takes both numbers from the Pos of one token register and the registers are written only in nextToken (generated inventory, computed obligation). Tied by the lexer correspondence and by re-locating every message of Parse on mutated statements in the input's token list.",
         design_ref="DESIGN.md §4 C13",
         note="Trusted: lexer model (correspondence), the reading of Offset/EOF (DESIGN §7), the translator argument for (d)."),
     "C14": dict(
